@@ -97,7 +97,21 @@ class B:
             dst.append(f"mon.write(len({name}))")
             return
         i = self.draw(st.integers(-n, n - 1))
-        form = self.draw(st.sampled_from(["lit", "lit", "len_minus", "expr"] + (["arith", "arith"] if t in ("int", "float") and name not in self.big else [])))
+        form = self.draw(st.sampled_from(["lit", "lit", "len_minus", "expr"] + (["arith", "arith"] if t in ("int", "float") and name not in self.big else []) + (["temp"] if dst is self.pro else [])))
+        if form == "temp":
+            # an index (also negative, also -len) applied to a temporary: a list literal, a comprehension, a helper's result
+            k = self.draw(st.integers(1, 3))
+            j = self.draw(st.integers(-k, k - 1))
+            kind = self.draw(st.sampled_from(["literal", "comp", "call"]))
+            if kind == "literal":
+                dst.append(f"mon.write([{', '.join(str(7 + q) for q in range(k))}][{j}])")
+            elif kind == "comp":
+                dst.append(f"mon.write([q * 2 for q in range({k})][{j}])")
+            else:
+                h = self.nm("mk")
+                self.pre += [f"def {h}(n):", "    return [q + 1 for q in range(n)]"]
+                dst.append(f"mon.write({h}({k})[{j}])")
+            return
         if form == "arith":
             # arithmetic on elements through the emitted helpers (pow, floor division, modulo): every Python value stays far inside 32 bits
             # (|element| <= 300), so the firmware has no excuse for signed overflow or a division trap
